@@ -128,11 +128,28 @@ def nodes_of(obj, acc=None):
 ###############################################################################
 
 
+def observable(obj):
+    """What a caller can see of a tree through its own printer and reference query."""
+    try:
+        text = str(obj)
+    except Exception as e:  # printing is not what is judged here; remember how it behaved
+        text = 'raises ' + type(e).__name__
+    refs = None
+    q = getattr(obj, 'external_references', None)
+    if q is not None:
+        try:
+            refs = tuple(sorted(q()))
+        except Exception as e:
+            refs = 'raises ' + type(e).__name__
+    return (text, refs)
+
+
 class Handle:
-    __slots__ = ('obj', 'snap', 'hash', 'twin', 'origin', 'kind')
+    __slots__ = ('obj', 'snap', 'hash', 'twin', 'origin', 'kind', 'seen')
 
     def __init__(self, obj, twin, origin):
         self.obj = obj
+        self.seen = observable(obj)
         self.snap = snapshot(obj)
         try:
             self.hash = hash(obj)
@@ -159,11 +176,11 @@ def is_ast(x):
 # Scenario generation: sources + literal op list
 ###############################################################################
 
-OPS_ANY = ('str', 'repr', 'hash', 'eq', 'iterate', 'children', 'subtree', 'but_same', 'but_child', 'set_metadata')
+OPS_ANY = ('str', 'repr', 'hash', 'eq', 'iterate', 'children', 'subtree', 'but_same', 'but_child', 'set_metadata', 'scribble_on_results')
 OPS_EXPR = ('external_references', 'contains_reference', 'contains_self_reference', 'contains_definition',
             'is_fully_typed', 'cast', 'replace_self_reference', 'replace_var_reference', 'type_check_expr',
             'simplify', 'split_and', 'refactor_reference', 'replace_this_with_var', 'replace_var_with_this',
-            'get_conjuncts', 'get_disjuncts', 'to_predicate')
+            'get_conjuncts', 'get_disjuncts', 'to_predicate', 'reshape_identity', 'reshape_cast', 'replace_custom')
 OPS_PRED = ('external_references', 'contains_reference', 'contains_self_reference', 'is_fully_typed',
             'negate', 'join', 'pred_replace_var', 'pred_replace_self', 'simplify', 'split_and',
             'refactor_reference', 'replace_this_with_var', 'replace_var_with_this', 'get_conjuncts',
@@ -353,6 +370,46 @@ def do_op(name, h, h2, op, pool, schema, msg_types):
     if name == 'set_metadata':
         obj.metadata[op['key']] = op['val']
         return None, 'user_mutation'
+    if name == 'scribble_on_results':
+        # a caller may do what it likes with the containers a query hands out
+        for q in ('external_references', 'aliases', 'children'):
+            fn = getattr(obj, q, None)
+            if fn is None:
+                continue
+            try:
+                r = fn()
+            except Exception:
+                continue
+            if isinstance(r, set):
+                r.add('scribble')
+                r.discard(next(iter(r)))
+            elif isinstance(r, list):
+                r.append('scribble')
+                r.reverse()
+            elif isinstance(r, dict):
+                r['scribble'] = 1
+        its = list(obj.iterate())
+        its.reverse()
+        return None, None
+    if name == 'reshape_identity':
+        return obj.reshape(lambda e: e, deep=bool(op['sel'] & 1)), None
+    if name == 'reshape_cast':
+        from hpl.types import DataType as _DT
+        t = _DT[op['dt']]
+
+        def f(e):
+            try:
+                return e.cast(t)
+            except TypeError:
+                return e
+        return obj.reshape(f, deep=bool(op['sel'] & 1)), None
+    if name == 'replace_custom':
+        other = _an_expr(h2, op)
+        k = (op['sel'] >> 3) % 7
+
+        def test(e, k=k):
+            return (hash(str(e)) + k) % 7 == 0
+        return obj.replace(test, other), None
     if name == 'external_references':
         return obj.external_references(), None
     if name == 'contains_reference':
@@ -524,6 +581,7 @@ def execute(sc, stats=None, upto=None, trace=None):
         shared = len(nodes_of(h.obj) & set().union(*[nodes_of(x.obj) for x in pool if x is not h])) > 0 if len(pool) > 1 else False
         if shared:
             count('ops_on_shared_nodes')
+        stats.setdefault('_triples', set()).add((name, type(h.obj).__name__, bool(shared)))
         result = note = None
         failed = None
         policy = seams.OrderPolicy.from_json(op.get('order', {'kind': 'identity'}), script=op.get('perm_script'))
@@ -569,6 +627,9 @@ def execute(sc, stats=None, upto=None, trace=None):
             d = diff_snap(x.snap, now)
             if d is not None:
                 return _viol('mutated', 'after %s on %s: a pooled %s (%s) changed: %s' % (name, type(h.obj).__name__, type(x.obj).__name__, x.origin, d), op_desc, sc, step)
+            if observable(x.obj) != x.seen:
+                return _viol('observable', 'after %s: printed form / external references of a pooled %s changed: %r -> %r' % (
+                    name, type(x.obj).__name__, x.seen, observable(x.obj)), op_desc, sc, step)
             if x.hash is not None:
                 try:
                     hv = hash(x.obj)
@@ -671,6 +732,7 @@ def worker(job):
     digests = []
     samples = []
     shapes = set()
+    triples = set()
     t0 = time.monotonic()
     prep()
     for idx in job['indices']:
@@ -680,6 +742,7 @@ def worker(job):
         seed = core.derive(job['master'], PROP, idx)
         r = core.run_isolated(one_run, seed, cfg)
         local = r['stats']
+        triples.update(local.pop('_triples', ()))
         core.merge_counts(stats, local)
         stats['runs'] = stats.get('runs', 0) + 1
         digests.append((idx, r['digest_gen'], r['digest_exec']))
@@ -695,7 +758,7 @@ def worker(job):
             found.append(v)
             if len(found) >= 25:
                 break
-    return {'stats': stats, 'violations': found, 'digests': digests, 'samples': samples, 'shapes': sorted(shapes)}
+    return {'stats': stats, 'violations': found, 'digests': digests, 'samples': samples, 'shapes': sorted(shapes), 'triples': sorted(triples)}
 
 
 def resolve_names(sc):
@@ -788,7 +851,9 @@ def main(argv):
     jobs = [{'cfg': cfg, 'indices': ch, 'master': master, 'wall': cfg['wall']} for ch in core.chunk(indices, nproc * 4)]
     results = core.run_pool(worker, jobs, nproc=nproc, wall_cap=cfg['wall'] + 240)
     stats, found, samples, digests, shapes = {}, [], [], [], set()
+    triples = set()
     for r in results:
+        triples.update(tuple(t) for t in r.get('triples', ()))
         core.merge_counts(stats, r['stats'])
         found.extend(r['violations'])
         samples.extend(r['samples'])
@@ -831,10 +896,11 @@ def main(argv):
     runs = stats.get('runs', 0)
     coverage = {
         'evaluations': int(stats.get('ops', 0)),
-        'distinct_nontrivial': len(shapes),
+        'distinct_nontrivial': len(triples),
         'rule': 'cases = API calls executed inside seeded histories, each followed by a full re-snapshot of every pooled tree; '
-                'distinct_nontrivial counts the distinct operation kinds exercised at least once in this run (a conservative '
-                'distinctness measure: operation x receiver x argument shapes are far more numerous)',
+                'distinct_nontrivial counts the distinct (operation, receiver class, receiver shares nodes with another pooled tree?) '
+                'triples exercised in this run',
+        'distinct_operation_kinds': len(shapes),
         'samples': samples[:3],
         'runs': runs,
         'runs_per_hour': int(runs / wall * 3600) if wall > 0 else 0,
